@@ -48,11 +48,15 @@ func (prop) Rule() string {
 		"(RetrieveChunkFromNode = 'deliver', RetrieveChunk with one chunkinfo route = 'deliver2', the forwarding stream handler = 'forward') from a fake peer that replies with the honest data or with " +
 		"truncated / extended (+1..+64, zero byte, past C+8) / bit-flipped data, data of another address, a flipped address, or an oversized payload whose first C+8 bytes hash to the address; accounting credit and the chunkinfo report may fail. " +
 		"pyramid cases: named chunks build honest file trees (1 leaf; 2..3 leaves with full first leaves) and GetChunkHashes is called with the honest map or with extra (valid / invalid), missing, altered (data or key), short, duplicate-key, zero-padded, span-lying, " +
-		"wrong-key-length entries, a zero-padded intermediate root, and oversized-but-hash-matching entries (as extra entry, as leaf, as root). Every Put is observed. " +
+		"wrong-key-length entries, a zero-padded intermediate root, and oversized-but-hash-matching entries (as extra entry, as leaf, as root); adversarial multi-entry cases (a*, am*, fix-pyramid-altered-not-last): the honest tree padded with valid unreachable entries to 2..12 entries, then variants with one or two bad entries at a random list position (payload byte of root / full leaf / last leaf altered, one span bit cleared, intermediate chunk with swapped or repeated references, altered unreachable extra, a valid chunk of the map under a reachable address, extension by non-zero bytes, an invalid entry under a random key). " +
+		"Every `pyr` op submits its pyramid 12 times, each time as a freshly built map with the insertion order rotated by one more entry (Go visits a small map in a rotation of its insertion order), into a fresh store: every trial is judged by the oracle, all trials must answer alike (else `unstable […]`). Every Put is observed. " +
 		"Non-trivial: at least one delivery/pyramid op with adversarial (non-honest) content; distinct by op-list hash. Not generated: mantaray manifests as pyramid root, intermediate chunks whose length is not a multiple of 32, spans >= 2^56 (joiner int64 overflow: endless loop), trees of height >= 2."
 }
 
 const C = boson.ChunkSize
+
+// pyrTrials: how often one `pyr` op submits its pyramid (see runner.pyr)
+const pyrTrials = 12
 
 // ---------------------------------------------------------------- generator
 
@@ -224,6 +228,32 @@ func (g *gen) file(leaves int, lastLen int) (string, []pent, []string) {
 	return "f", es, append([]string{"f"}, names...)
 }
 
+// altPos: a payload position below n (> 8) to alter — never a span byte: an altered entry that a changed
+// GetChunkHashes lets through must not carry a span larger than its payload (joiner.subtrieSection
+// spins for ever on a payload shorter than one reference, JoinReadAll loops span/C times — see
+// notes/C06.md); span alterations are generated by advPyramidCase, which only CLEARS a bit.
+func (g *gen) altPos(n int) int {
+	if n <= 8 {
+		return 8
+	}
+	return 8 + g.r.Intn(n-8)
+}
+
+// spanAlt: `pos:x` clearing one set bit of the low three span bytes (the altered span is smaller)
+func (g *gen) spanAlt(span int) string {
+	var bits []int
+	for b := 0; b < 24; b++ {
+		if span>>uint(b)&1 == 1 {
+			bits = append(bits, b)
+		}
+	}
+	if len(bits) == 0 {
+		return "8:1"
+	}
+	b := bits[g.r.Intn(len(bits))]
+	return fmt.Sprintf("%d:%d", b/8, 1<<uint(b%8))
+}
+
 func (g *gen) pyramidCase(multi bool) {
 	r := g.r
 	leaves := 1
@@ -261,7 +291,7 @@ func (g *gen) pyramidCase(multi bool) {
 		case 3: // altered data
 			for i := range o {
 				if o[i].k == "#"+victim {
-					o[i].v = fmt.Sprintf("@%s^%d:%d", victim, r.Intn(8+last), 1<<uint(r.Intn(8)))
+					o[i].v = fmt.Sprintf("@%s^%d:%d", victim, g.altPos(8+last), 1<<uint(r.Intn(8)))
 				}
 			}
 		case 4: // altered key
@@ -276,7 +306,7 @@ func (g *gen) pyramidCase(multi bool) {
 		case 5: // short entry
 			o = append(o, pent{"h:" + core.Hex(r.Bytes(32)), "h:" + core.Hex(r.Bytes(r.Intn(8)))})
 		case 6: // duplicate key: bad first, good last (last wins) or the reverse
-			bad := pent{"#" + victim, fmt.Sprintf("@%s^%d:1", victim, r.Intn(8+last))}
+			bad := pent{"#" + victim, fmt.Sprintf("@%s^%d:1", victim, g.altPos(8+last))}
 			if r.Bool() {
 				o = append([]pent{bad}, o...)
 			} else {
@@ -339,10 +369,177 @@ func (g *gen) oversizeTreeCase(asLeaf bool) {
 	g.pyr("#f2", []pent{{"#f2", "@f2"}, {"#l0", "@l0"}, {"#m1", "@m1"}})
 }
 
+// adversarial multi-entry pyramids (added after seeded change C06-3, which verified only the entry
+// the map iteration visited last): an honest file tree (1 leaf = the root is the only reachable
+// entry; 2..3 leaves with full first leaves) padded with valid unreachable entries to n = 2..12
+// entries; then variants with exactly one (sometimes two) bad entries at a random position of the
+// entry list — the runner additionally rotates the insertion order over its trials, so every entry
+// is visited first, in the middle and last.
+func (g *gen) advPyramidCase(leaves int, n int) {
+	r := g.r
+	last := r.Pick([]int{1, 31, 32, 33, 100, 4096, r.Range(1, 3000)})
+	root, es, names := g.file(leaves, last)
+	if n < len(es) {
+		n = len(es)
+	}
+	if n < 2 {
+		n = 2
+	}
+	var pads []string
+	for i := 0; len(es)+len(pads) < n; i++ {
+		nm := fmt.Sprintf("x%d", i)
+		ln := r.Range(1, 200)
+		g.op("def %s s%d+g:%d:%d", nm, ln, r.Intn(1000), ln)
+		pads = append(pads, nm)
+	}
+	base := func() []pent {
+		o := append([]pent(nil), es...)
+		for _, nm := range pads {
+			o = append(o, pent{"#" + nm, "@" + nm})
+		}
+		for i := len(o) - 1; i > 0; i-- {
+			j := r.Intn(i + 1)
+			o[i], o[j] = o[j], o[i]
+		}
+		return o
+	}
+	lenOf := func(nm string) int {
+		switch {
+		case leaves == 1 && nm == "f":
+			return 8 + last
+		case nm == "f":
+			return 8 + 32*leaves
+		case nm == names[len(names)-1]:
+			return 8 + last
+		}
+		return 8 + C
+	}
+	set := func(o []pent, key, val string) {
+		for i := range o {
+			if o[i].k == key {
+				o[i].v = val
+			}
+		}
+	}
+	bit := func() int { return 1 << uint(r.Intn(8)) }
+	// extension by non-zero bytes; an intermediate chunk only by whole references (the joiner slices
+	// data[cursor:cursor+32] of an intermediate payload that is not a multiple of 32: a panic inside one of
+	// its goroutines would end the harness process if a changed GetChunkHashes let the entry through)
+	ext := func(nm string) string {
+		if nm == "f" && leaves > 1 {
+			return "@" + nm + "+h:" + core.Hex(append(r.Bytes(31), 1))
+		}
+		return "@" + nm + "+h:" + core.Hex(append(r.Bytes(r.Range(0, 8)), 1))
+	}
+	g.pyr("#"+root, base()) // honest tree + valid unreachable extras
+	k := r.Range(4, 7)
+	for j := 0; j < k; j++ {
+		o := base()
+		victim := names[r.Intn(len(names))]
+		switch r.Intn(10) {
+		case 0, 1, 2: // one payload byte of a reachable entry altered, key unchanged
+			set(o, "#"+victim, fmt.Sprintf("@%s^%d:%d", victim, r.Range(8, lenOf(victim)-1), bit()))
+		case 3: // one bit of the span of a reachable entry cleared (never a larger span, see altPos)
+			span := lenOf(victim) - 8
+			if victim == "f" && leaves > 1 {
+				span = (leaves-1)*C + last
+			}
+			set(o, "#"+victim, "@"+victim+"^"+g.spanAlt(span))
+		case 4: // intermediate root with two references swapped / one repeated (the walk still succeeds
+			// when both are full leaves); 1-leaf trees: root payload altered
+			if leaves >= 3 {
+				refs := []string{"#l0", "#l1", "#l2"}
+				if r.Bool() {
+					refs[0], refs[1] = refs[1], refs[0]
+				} else {
+					refs[r.Intn(2)] = refs[r.Intn(2)]
+					if refs[0] != refs[1] {
+						refs[1] = refs[0]
+					}
+				}
+				g.op("def fs s%d+%s", 2*C+last, strings.Join(refs, "+"))
+				set(o, "#f", "@fs")
+			} else {
+				set(o, "#f", fmt.Sprintf("@f^%d:%d", r.Range(8, lenOf("f")-1), bit()))
+			}
+		case 5: // an unreachable extra entry altered (never stored; the whole pyramid is refused)
+			if len(pads) > 0 {
+				x := pads[r.Intn(len(pads))]
+				set(o, "#"+x, fmt.Sprintf("@%s^%d:%d", x, r.Intn(9), bit()))
+			} else {
+				set(o, "#"+victim, ext(victim))
+			}
+		case 6: // a valid chunk of the map under the address of a reachable one
+			other := names[r.Intn(len(names))]
+			if len(pads) > 0 && r.Chance(60) {
+				other = pads[r.Intn(len(pads))]
+			}
+			if other != victim {
+				set(o, "#"+victim, "@"+other)
+			} else {
+				set(o, "#"+victim, ext(victim))
+			}
+		case 7: // extended by non-zero bytes (not truncated: a payload shorter than its span, let through by a
+			// changed GetChunkHashes, sends joiner.subtrieSection into an endless loop — see altPos)
+			set(o, "#"+victim, ext(victim))
+		case 8: // two bad entries: a reachable one and (if any) an extra
+			set(o, "#"+victim, fmt.Sprintf("@%s^%d:%d", victim, r.Range(8, lenOf(victim)-1), bit()))
+			if len(pads) > 0 {
+				x := pads[r.Intn(len(pads))]
+				set(o, "#"+x, fmt.Sprintf("@%s^%d:%d", x, r.Intn(9), bit()))
+			}
+		case 9: // an additional invalid entry under a random key, anywhere in the list
+			bad := pent{"h:" + core.Hex(r.Bytes(32)), "h:" + core.Hex(r.Bytes(r.Range(8, 60)))}
+			i := r.Intn(len(o) + 1)
+			o = append(o[:i], append([]pent{bad}, o[i:]...)...)
+		}
+		g.pyr("#"+root, o)
+	}
+}
+
+// C06-3 as fixed regression: the altered entry first / in the middle / last, 2..12 entries
+func (g *gen) alteredNotLastCase() {
+	g.op("def f s40+g:1:40")
+	g.op("def x0 s50+g:2:50")
+	g.op("def x1 s60+g:3:60")
+	g.pyr("#f", []pent{{"#f", "@f"}, {"#x0", "@x0"}})
+	g.pyr("#f", []pent{{"#f", "@f^20:1"}, {"#x0", "@x0"}})
+	g.pyr("#f", []pent{{"#x0", "@x0"}, {"#f", "@f^20:1"}})
+	g.pyr("#f", []pent{{"#f", "@f^47:128"}, {"#x0", "@x0"}, {"#x1", "@x1"}})
+	g.pyr("#f", []pent{{"#x0", "@x0^30:4"}, {"#f", "@f"}})
+	g.pyr("#f", []pent{{"#f", "@f"}, {"#x0", "@x1"}, {"#x1", "@x1"}})
+	// 12 entries, the altered root in the middle
+	es := []pent{}
+	for i := 2; i < 11; i++ {
+		g.op("def x%d s%d+g:%d:%d", i, 20+i, 10+i, 20+i)
+	}
+	for i := 0; i < 11; i++ {
+		if i == 5 {
+			es = append(es, pent{"#f", "@f^9:1"})
+		}
+		es = append(es, pent{fmt.Sprintf("#x%d", i), fmt.Sprintf("@x%d", i)})
+	}
+	g.pyr("#f", es)
+	// two leaves: altered full leaf in the middle, altered last leaf first, foreign chunk under a leaf address
+	g.op("def l0 s%d+p:7:%d:1000", C, C)
+	g.op("def l1 s77+g:8:77")
+	g.op("def ff s%d+#l0+#l1", C+77)
+	g.pyr("#ff", []pent{{"#ff", "@ff"}, {"#l0", "@l0"}, {"#l1", "@l1"}})
+	g.pyr("#ff", []pent{{"#ff", "@ff"}, {"#l0", "@l0^5000:1"}, {"#l1", "@l1"}})
+	g.pyr("#ff", []pent{{"#l1", "@l1^10:2"}, {"#ff", "@ff"}, {"#l0", "@l0"}})
+	g.pyr("#ff", []pent{{"#ff", "@ff"}, {"#l0", "@l0"}, {"#l1", "@x0"}, {"#x0", "@x0"}})
+	// three leaves: the intermediate chunk with its two full-leaf references swapped (walk succeeds)
+	g.op("def m1 s%d+p:9:%d:1000", C, C)
+	g.op("def g3 s%d+#l0+#m1+#l1", 2*C+77)
+	g.op("def g3s s%d+#m1+#l0+#l1", 2*C+77)
+	g.pyr("#g3", []pent{{"#g3", "@g3"}, {"#l0", "@l0"}, {"#m1", "@m1"}, {"#l1", "@l1"}})
+	g.pyr("#g3", []pent{{"#g3", "@g3s"}, {"#l0", "@l0"}, {"#m1", "@m1"}, {"#l1", "@l1"}})
+}
+
 func (prop) Gen(r *core.Rand, tier string) []core.Case {
-	nd, nbig, np, nmulti := 30, 2, 12, 3
+	nd, nbig, np, nmulti, nadv, nadvMulti := 30, 2, 12, 3, 10, 2
 	if tier == "thorough" {
-		nd, nbig, np, nmulti = 600, 20, 200, 30
+		nd, nbig, np, nmulti, nadv, nadvMulti = 600, 20, 200, 30, 150, 20
 	}
 	var cs []core.Case
 	mk := func(id string, nt bool, f func(g *gen)) {
@@ -354,6 +551,7 @@ func (prop) Gen(r *core.Rand, tier string) []core.Case {
 	mk("fix-oversize-root", true, func(g *gen) { g.oversizeTreeCase(false) })
 	mk("fix-oversize-leaf", true, func(g *gen) { g.oversizeTreeCase(true) })
 	mk("fix-oversize-delivery", true, func(g *gen) { g.oversizeDelivery() })
+	mk("fix-pyramid-altered-not-last", true, func(g *gen) { g.alteredNotLastCase() })
 	mk("fix-basic", true, func(g *gen) {
 		g.op("deliver 1 1")
 		g.op("new h:666f6f")
@@ -416,6 +614,12 @@ func (prop) Gen(r *core.Rand, tier string) []core.Case {
 			}
 			g.pyramidCase(m)
 		})
+	}
+	for i := 0; i < nadv; i++ {
+		mk(fmt.Sprintf("a%d", i), true, func(g *gen) { g.advPyramidCase(1, 2+(i+r.Intn(3))%11) })
+	}
+	for i := 0; i < nadvMulti; i++ {
+		mk(fmt.Sprintf("am%d", i), true, func(g *gen) { g.advPyramidCase(2+i%2, r.Range(3, 12)) })
 	}
 	return cs
 }
@@ -840,57 +1044,101 @@ func (rn *runner) pyr(ctx *core.Ctx, op []string) string {
 		}
 		ents = append(ents, kv{k, v})
 	}
-	// the map exactly as chunkinfo.onChunkPyramidResp builds it from the peer's responses
-	pyramid := make(map[string][]byte)
+	// the map content exactly as chunkinfo.onChunkPyramidResp builds it from the peer's responses
+	// (NewAddress(hash).String() keys, later responses win)
 	raw := map[string][]byte{}
+	var order [][]byte // distinct keys, first occurrence first
 	for _, e := range ents {
-		pyramid[boson.NewAddress(e.k).String()] = e.v
+		if _, dup := raw[string(e.k)]; !dup {
+			order = append(order, e.k)
+		}
 		raw[string(e.k)] = e.v
 	}
-	st := &fakeStore{}
-	type res struct{ err error }
-	done := make(chan res, 1)
-	go func() {
-		_, _, err := traversal.New(st).GetChunkHashes(context.Background(), boson.NewAddress(root), pyramid)
-		done <- res{err}
-	}()
-	var err error
-	select {
-	case r := <-done:
-		err = r.err
-	case <-time.After(60 * time.Second):
-		ctx.Fail("pyramid-hang", "GetChunkHashes did not return")
-		return "hang"
-	}
 	reach := reachable(root, raw)
-	for _, p := range st.puts {
-		want, ok := raw[string(p.addr)]
-		if !ok || !bytes.Equal(want, p.data) {
-			ctx.Fail("pyramid-stored-not-in-map", "Put of %x is not an entry of the pyramid", p.addr)
+	// GetChunkHashes ranges over the map, and Go's map order differs from one range statement to the
+	// next (maps of <= 8 entries: a rotation of the insertion order starting at a random slot; the entry
+	// inserted last is visited last 7 times out of 8 in a 2-entry map).  Whether an entry is visited
+	// first or last must not matter, so the same pyramid is submitted pyrTrials times, each time as a
+	// freshly built map whose insertion order is rotated by one more entry, into a fresh store; every
+	// trial is judged by the oracle and all trials must give the same answer.
+	trials := pyrTrials
+	if len(order) <= 1 {
+		trials = 2
+	}
+	failed := map[string]bool{}
+	fail := func(clause, format string, a ...interface{}) {
+		msg := fmt.Sprintf(format, a...)
+		if !failed[clause+msg] {
+			failed[clause+msg] = true
+			ctx.Fail(clause, "%s", msg)
 		}
-		if !refimpl.CacValid(p.addr, p.data) {
-			clause := "pyramid-stored-invalid"
-			if len(p.data) > C+8 {
-				clause += "-oversize"
+	}
+	var outcomes []string
+	seenOut := map[string]bool{}
+	for t := 0; t < trials; t++ {
+		pyramid := make(map[string][]byte)
+		for i := range order {
+			k := order[(i+t)%len(order)]
+			pyramid[boson.NewAddress(k).String()] = raw[string(k)]
+		}
+		st := &fakeStore{}
+		type res struct{ err error }
+		done := make(chan res, 1)
+		go func() {
+			_, _, err := traversal.New(st).GetChunkHashes(context.Background(), boson.NewAddress(root), pyramid)
+			done <- res{err}
+		}()
+		var err error
+		select {
+		case r := <-done:
+			err = r.err
+		case <-time.After(60 * time.Second):
+			ctx.Fail("pyramid-hang", "GetChunkHashes did not return")
+			return "hang"
+		}
+		st.mu.Lock()
+		puts := append([]put(nil), st.puts...)
+		st.mu.Unlock()
+		for _, p := range puts {
+			want, ok := raw[string(p.addr)]
+			if !ok || !bytes.Equal(want, p.data) {
+				fail("pyramid-stored-not-in-map", "Put of %x is not an entry of the pyramid", p.addr)
 			}
-			ctx.Fail(clause, "stored %d bytes under %x: not a valid content-addressed chunk", len(p.data), p.addr)
+			if !refimpl.CacValid(p.addr, p.data) {
+				clause := "pyramid-stored-invalid"
+				if len(p.data) > C+8 {
+					clause += "-oversize"
+				}
+				fail(clause, "stored %d bytes under %x: not a valid content-addressed chunk", len(p.data), p.addr)
+			}
+			if !reach[string(p.addr)] {
+				fail("pyramid-stored-unreachable", "stored %x is not reachable from the root", p.addr)
+			}
 		}
-		if !reach[string(p.addr)] {
-			ctx.Fail("pyramid-stored-unreachable", "stored %x is not reachable from the root", p.addr)
+		out := "err"
+		if err != nil {
+			if len(puts) > 0 {
+				fail("pyramid-stored-despite-error", "%d puts although GetChunkHashes failed: %v", len(puts), err)
+			}
+		} else {
+			var l []string
+			for _, p := range puts {
+				l = append(l, entryStr(p.addr, p.data))
+			}
+			sort.Strings(l)
+			out = "ok " + strings.Join(l, " ")
+		}
+		if !seenOut[out] {
+			seenOut[out] = true
+			outcomes = append(outcomes, out)
 		}
 	}
-	if err != nil {
-		if len(st.puts) > 0 {
-			ctx.Fail("pyramid-stored-despite-error", "%d puts although GetChunkHashes failed: %v", len(st.puts), err)
-		}
-		return "err"
+	if len(outcomes) == 1 {
+		return outcomes[0]
 	}
-	var l []string
-	for _, p := range st.puts {
-		l = append(l, entryStr(p.addr, p.data))
-	}
-	sort.Strings(l)
-	return "ok " + strings.Join(l, " ")
+	// the answer depends on the order in which the map happened to be visited
+	sort.Strings(outcomes)
+	return "unstable [" + strings.Join(outcomes, "] [") + "]"
 }
 
 func (rn *runner) Step(ctx *core.Ctx, op []string) string {
